@@ -285,6 +285,32 @@ func genSmallCmd(out string, seed uint64, thorough bool) error {
 			if last-first+1 > maxAll {
 				stats["crashpoints_sampled"]++
 			}
+			// truncation images: the tail file ENDS at byte t, endA <= t <= endB (the old tail
+			// between Truncate and sync inside cut; a tail grown past its preallocation)
+			li := len(b.files) - 1
+			ts := map[int]bool{endA: true, endB: true}
+			for _, dlt := range []int{1, 8, 9} {
+				ts[endA+dlt] = true
+				ts[endB-dlt] = true
+			}
+			nr := 3
+			if thorough {
+				nr = 24
+			}
+			for t := 0; t < nr; t++ {
+				ts[endA+r.intn(endB-endA+1)] = true
+			}
+			tl := make([]int, 0, len(ts))
+			for t := range ts {
+				if t >= endA && t <= endB {
+					tl = append(tl, t)
+				}
+			}
+			sort.Ints(tl)
+			for _, t := range tl {
+				fmt.Fprintf(w, "T %s %s 0 0 %d %d %d\n", next(), b.id, li, t, endA)
+				stats["truncations"]++
+			}
 		}
 
 		// ---- single-byte corruptions of the final directory
